@@ -72,6 +72,10 @@ C09Viol(e) ==
       ok   == Permitted(caps, e.c)
   IN  IF (why = "permitted") # ok THEN {V("SpecInconsistent", "Permitted vs WhyNot", e)}
       ELSE IF e.local = "panic" THEN {V("Panic", "op=" \o e.c.op, e)}
+      (* what the request on the wire uses (read off the bytes), whatever the caller asked for *)
+      ELSE IF e.sent /\ Has(e, "d") /\ ~Permitted(caps, e.d)
+           THEN {V("SentWithoutCapability", "op=" \o e.d.op \o " on-the-wire missing=" \o WhyNot(caps, e.d), e)}
+      ELSE IF ~e.c.complete THEN {}       \* a request with a mandatory parameter left out may be refused or completed
       ELSE IF e.sent /\ ~ok THEN {V("SentWithoutCapability", "op=" \o e.c.op \o " missing=" \o why, e)}
       ELSE IF ~e.sent /\ ok THEN {V("RefusedThoughPermitted", What(e.c), e)}
       ELSE IF e.sent /\ ~e.wire_ok THEN {V("WireDoesNotCarryContent", What(e.c), e)}
